@@ -72,7 +72,7 @@ def check_reuse_texts(a: int, b: int, c: int) -> bool:
     re-used): every rendering equals the one of a fresh visitor and parses back to the same tree."""
     vis = AstToODataVisitor()
     for k in (a, b, c):
-        t = _parse(REUSE_TEXTS[k])
+        t = _parse(gen.pick(REUSE_TEXTS, k))
         s = vis.visit(t)
         if s != AstToODataVisitor().visit(t) or gen.decode(_parse(s)) != gen.decode(t):
             return False
